@@ -1,7 +1,7 @@
 (* Definitions shared by Run/Run_C13.v and Run/Run_C14.v: the concrete store the
    harness builds (values with two index keys, indexes "k" and "kb"), query
    descriptions and decidable equalities.  No proofs. *)
-From GoRes Require Export Index.Spec Index.Handler.
+From GoRes Require Export Index.Spec Index.QHandler.
 Open Scope N_scope.
 
 (* a stored value as the index sees it: key of index "k" (never nil), key of
